@@ -19,7 +19,8 @@ API (everything is regenerated on the current breezy; nothing is cached on disk)
 
 An op is a tuple: ("write",p,c) ("chmod",p) ("mkdir",d) ("add",p) ("sadd",)
 ("rm",p,"keep"|"force"|"safe") ("unv",p) ("mv",p,q) ("move",p,d) ("commit",)
-("revert",) ("revertp",p) ("flip",p) and the pseudo op ("reopen",) = drop the object, WorkingTree.open.
+("revert",) ("revertp",p) ("flip",p); ("mv",p,q,"after"|"auto") / ("move",p,d,"after"|"auto") = path
+moved on disk first, then recorded with after=True / auto-detected; and the pseudo op ("reopen",) = drop the object, WorkingTree.open.
 """
 import os
 import shutil
@@ -342,8 +343,17 @@ def enabled(m):
                     if any((q + s[len(p):]) not in ns.paths for s in m.disk if inside(p, s)):
                         continue       # children would leave the namespace
                     out.append(("mv", p, q))
-                    if parent(q) != "" and base(q) == base(p) and parent(q) != parent(p):
+                    ismove = parent(q) != "" and base(q) == base(p) and parent(q) != parent(p)
+                    if ismove:
                         out.append(("move", p, parent(q)))
+                    # the same renames recorded AFTER the fact: the path was already moved on disk;
+                    # "after" passes after=True, "auto" lets the tree detect it.  git refuses a
+                    # target that is versioned in the basis tree, so that case is not enabled there.
+                    if not (m.git and (q in bs or any(inside(q, b) for b in bs))):
+                        for how in ("after", "auto"):
+                            out.append(("mv", p, q, how))
+                            if ismove:
+                                out.append(("move", p, parent(q), how))
     if ns.flip and not m.git:
         for p in ns.paths:
             if p in m.ver and (m.isfile(p) or not any(inside(p, q) and q != p for q in m.disk)):
@@ -414,10 +424,16 @@ def run_op(tree, op, nrev=0):
     elif k == "unv":
         with tree.lock_tree_write():
             tree.unversion([op[1]])
-    elif k == "mv":
-        tree.rename_one(op[1], op[2])
-    elif k == "move":
-        tree.move([op[1]], op[2])
+    elif k in ("mv", "move"):
+        how = op[3] if len(op) > 3 else None
+        if how is not None:
+            dest = op[2] if k == "mv" else op[2] + "/" + base(op[1])
+            os.rename(os.path.join(root, op[1]), os.path.join(root, dest))
+        kw = {"after": True} if how == "after" else {}
+        if k == "mv":
+            tree.rename_one(op[1], op[2], **kw)
+        else:
+            tree.move([op[1]], op[2], **kw)
     elif k == "commit":
         kw = dict(timestamp=1000000000 + nrev, timezone=0, committer=COMMITTER)
         if not is_git(tree):
@@ -497,6 +513,8 @@ def observe(tree, ns):
         o["ids"] = {p: tree.path2id(p) for p in vp}
         o["iebd"] = sorted((p, ie.kind) for p, ie in tree.iter_entries_by_dir() if p != "")
         o["isv"] = {p: bool(tree.is_versioned(p)) for p in ns.paths}
+        o["lsf"] = sorted((row[0], row[2]) for row in tree.list_files(include_root=False, recursive=True)
+                          if row[1] == "V")
         o["parents"] = list(tree.get_parent_ids())
         basis = tree.basis_tree()
         with basis.lock_read():
@@ -557,6 +575,9 @@ def compare(o, m, disk):
     if sorted(p for p, _ in o["iebd"]) != sorted(o["wt"]):
         bad.append(("api-disagree:iter_entries_by_dir-vs-all_versioned_paths",
                     {"iter_entries_by_dir": o["iebd"], "all_versioned_paths": sorted(o["wt"])}))
+    if sorted(p for p, _ in o["lsf"]) != sorted(p for p in exp if p in m.disk):
+        bad.append(("api-disagree:list_files-vs-model",
+                    {"list_files": o["lsf"], "model": sorted(p for p in exp if p in m.disk)}))
     for p, v in o["isv"].items():
         if v != (p in exp):
             bad.append(("api-disagree:is_versioned", {"path": p, "is_versioned": v, "model": p in exp}))
@@ -649,17 +670,51 @@ class Trouble(Exception):
         self.detail = detail
 
 
-def step(tree, m, op, kind, acc=None, check=True):
+TREE_OPS = ("mkdir", "add", "sadd", "rm", "unv", "mv", "move", "commit", "revert", "revertp")
+
+
+def step(tree, m, op, kind, acc=None, check=True, warm=False):
     """Run op on the real tree and on the model (in place), compare.  Returns the tree object.
-    Raises Trouble(signature, detail) on any disagreement / exception."""
+    Raises Trouble(signature, detail) on any disagreement / exception.
+
+    warm: the operation runs inside ONE write lock that first fills the tree's caches
+    (all_versioned_paths, iter_entries_by_dir, list_files) and the observation is also taken and
+    compared before the lock is released (cache-backed and dirstate/index-backed queries must
+    both agree with the model inside the lock), then again after unlock and after re-open."""
+    lock = None
+    if warm:
+        lock = tree.lock_write()
+        try:
+            list(tree.all_versioned_paths())
+            list(tree.iter_entries_by_dir())
+            list(tree.list_files())
+        except Exception as e:  # noqa
+            lock.unlock()
+            raise Trouble("%s:warm-before-%s:%s:%s" % (kind, opname(op), type(e).__name__, innermost_repo_frame(e)),
+                          {"error": str(e)[:300]})
     try:
-        tree = run_op(tree, op, m.nrev)
-    except Exception as e:  # noqa: an exception for an operation the model enables is a finding
-        raise Trouble("%s:%s:%s:%s" % (kind, opname(op), type(e).__name__, innermost_repo_frame(e)),
-                      {"error": str(e)[:300]})
-    m.apply(op)
-    disk = real_disk(tree)
-    m.adopt_disk(disk)
+        try:
+            tree = run_op(tree, op, m.nrev)
+        except Exception as e:  # noqa: an exception for an operation the model enables is a finding
+            raise Trouble("%s:%s:%s:%s" % (kind, opname(op), type(e).__name__, innermost_repo_frame(e)),
+                          {"error": str(e)[:300]})
+        m.apply(op)
+        disk = real_disk(tree)
+        m.adopt_disk(disk)
+        if warm and check:
+            try:
+                oin = observe(tree, m.ns)
+            except Exception as e:  # noqa
+                raise Trouble("%s:observe-in-lock-after-%s:%s:%s" % (
+                    kind, opname(op), type(e).__name__, innermost_repo_frame(e)), {"error": str(e)[:300]})
+            bad = compare(oin, m, disk)
+            if bad:
+                raise Trouble("%s:%s:in-lock:%s" % (kind, opname(op), bad[0][0]),
+                              {"aspect": bad[0][0], "mismatch": bad[0][1],
+                               "other_aspects": [b[0] for b in bad[1:]]})
+    finally:
+        if lock is not None:
+            lock.unlock()
     if not check:
         return tree
     try:
@@ -688,6 +743,8 @@ def step(tree, m, op, kind, acc=None, check=True):
 def opname(op):
     if op[0] == "rm":
         return "remove-" + op[2]
+    if op[0] in ("mv", "move") and len(op) > 3:
+        return {"mv": "rename_one", "move": "move"}[op[0]] + "-" + op[3]
     return {"mv": "rename_one", "unv": "unversion", "sadd": "smart_add", "revertp": "revert-path",
             "flip": "kind-change"}.get(op[0], op[0])
 
@@ -752,6 +809,21 @@ def _expand(chunk):
                 if m2.has_changes():
                     acc.nt(m2.key())
             shutil.rmtree(dst, ignore_errors=True)
+            if mode == "fresh" and check and op[0] in TREE_OPS:
+                # the same transition inside one lock with warm caches
+                m3 = m.copy()
+                shutil.copytree(src, dst, symlinks=True)
+                t3 = WorkingTree.open(dst)
+                acc.n += 1
+                acc.count("warm-lock-transitions")
+                try:
+                    step(t3, m3, op, kind, acc, check=True, warm=True)
+                except Trouble as t:
+                    t.detail["history"] = list(h) + [op]
+                    t.detail["mode"] = "one lock, warm caches"
+                    sig = t.sig if ":in-lock:" in t.sig or "-in-lock-" in t.sig else t.sig + ":warm-lock"
+                    _note(acc, sig, t.detail)
+                shutil.rmtree(dst, ignore_errors=True)
         shutil.rmtree(src, ignore_errors=True)
     return acc
 
